@@ -105,6 +105,13 @@ def collect_modules(ctx, rng, n_nolint=2):
     open(os.path.join(d, "go.mod"), "w").write("module ex.com/sp\n\ngo 1.23\n")
     open(os.path.join(d, "sp", "sp.go"), "w").write(spellings.generate()[0])
     mods.append((d, True))
+    # generated multi-package programs of the core fragment: flows that cross package boundaries in both directions
+    # (nil passed into a dependency that dereferences it, nil results of a dependency dereferenced locally, ...)
+    from . import progfuzz as PF
+    d = ctx.scratch()
+    cases = PF.gen_cases(rng, 60 * max(1, n_nolint // 2), streams=("random",), prefix="w")
+    PF.write_module(d, {c.name: c.prog for c in cases}, {c.name: random.Random(rng.random()) for c in cases})
+    mods.append((d, True))
     return mods
 
 
